@@ -10,7 +10,7 @@ from pysnark.boolean import LinCombBool
 from pysnark.fixedpoint import LinCombFxp
 
 def if_then_else(cond, truev, falsev):
-    if truev is falsev:
+    if truev is falsev and not callable(truev): # (one callable for both branches still has to be called)
         return truev
     
     if isinstance(cond, int):
